@@ -4,7 +4,10 @@
 # Prints one line.
 SD="$1"
 T=$(mktemp -d /tmp/mconf.XXXXXX)
-git -C /repo archive HEAD | tar -x -C "$T"; cp /repo/src/pendulum/_pendulum*.so "$T/src/pendulum/" 2>/dev/null
+git -C /repo archive HEAD | tar -x -C "$T"
+# the compiled extension built from /repo's CURRENT Rust sources (the prebuilt copy lying in /repo/src predates the fixes)
+SO=$(cd /verif && /venv/bin/python -c "from harness import env; print(env.build_rust())")
+cp "$SO" "$T/src/pendulum/_pendulum.cpython-312-x86_64-linux-gnu.so"
 cd "$T" && git init -q . >/dev/null 2>&1
 RUST=0; grep -q '^+++ b/rust/' "$SD/patch.diff" && RUST=1
 build() { ( cd "$T/rust" && find . -name '*.rs' -exec touch {} + && PYO3_PYTHON=/venv/bin/python cargo build --release --offline >/dev/null 2>&1 \
